@@ -24,6 +24,20 @@ theorem facts_get_body : Generated.getFingerprint = expectedGetFingerprint := by
 /-- bridge: an unknown kind is rejected by the first statement of `Get`, before any cache access or subscription -/
 theorem facts_kind_check : Generated.kindCheckFirst = true := by decide
 
+/-- bridge: the kinds with a type URL are the five resource kinds 1..5 (listener, route table, cluster, endpoints, name table) -/
+theorem facts_kinds : Generated.knownKinds = [1, 2, 3, 4, 5] := by decide
+
+/-- **an unknown kind is rejected**: exactly the kinds 1..5 get past the first statement of `Get`; the zero kind (the zero
+value of the kind type), negative numbers and everything above the name table are rejected there, before any cache
+access, notifier or subscription (`facts_kind_check`) -/
+theorem unknown_kind_rejected (k : Int) : kindAccepted Generated.knownKinds k = true ↔ (1 ≤ k ∧ k ≤ 5) := by
+  rw [facts_kinds]
+  simp only [kindAccepted, List.any_cons, List.any_nil, Bool.or_false, Bool.or_eq_true, beq_iff_eq]
+  omega
+
+example : kindAccepted Generated.knownKinds 0 = false ∧ kindAccepted Generated.knownKinds (-1) = false ∧
+    kindAccepted Generated.knownKinds 6 = false ∧ kindAccepted Generated.knownKinds 3 = true := by decide
+
 /-- no thread ever finishes with "neither a value nor an error" -/
 def NoNil (s : S) : Prop := ∀ i, s.pc i ≠ .done .nilnil
 
